@@ -5,6 +5,7 @@
 import IbicusModel.Model.Evaluate
 import Mathlib.Data.List.Basic
 import Mathlib.Tactic.Linarith
+import Mathlib.Tactic.Ring
 
 namespace Lemmas.Evaluate
 open Model.Evaluate
@@ -263,5 +264,49 @@ theorem bin_sum_nonneg : ∀ (i : List Int), Bin i → 0 ≤ i.sum
   | a :: t, h => by
     have := bin_sum_nonneg t (fun v hv => h v (by simp [hv]))
     rcases h a (by simp) with ha | ha <;> subst ha <;> simp only [List.sum_cons] <;> omega
+
+/-! ### one year at a time, tiled records, row order -/
+
+/-- the instances on the days of year `y`, in time order -/
+def instOfYear (years inst : List Int) (y : Int) : List Int :=
+  ((years.zip inst).filter (fun p => decide (p.1 = y))).map (·.2)
+
+theorem yearSum_eq (years inst : List Int) (y : Int) : yearSum years inst y = (instOfYear years inst y).sum := rfl
+
+theorem filter_eq_replicate (l : List Int) (y : Int) :
+    l.filter (fun v => decide (v = y)) = List.replicate (l.filter (fun v => decide (v = y))).length y := by
+  rw [List.eq_replicate_iff]
+  refine ⟨rfl, fun b hb => ?_⟩
+  simpa using (List.mem_filter.mp hb).2
+
+/-- a record repeated `k` times (the same block tiled along the time axis) -/
+def tile {α} (k : Nat) (x : List α) : List α := (List.replicate k x).flatten
+
+theorem tile_succ {α} (k : Nat) (x : List α) : tile (k + 1) x = x ++ tile k x := by
+  simp [tile, List.replicate_succ]
+
+theorem tile_length {α} (k : Nat) (x : List α) : (tile k x).length = k * x.length := by
+  induction k with
+  | zero => simp [tile]
+  | succ n ih => rw [tile_succ, List.length_append, ih]; ring
+
+theorem tile_sum_int (k : Nat) (x : List Int) : (tile k x).sum = (k : Int) * x.sum := by
+  induction k with
+  | zero => simp [tile]
+  | succ n ih => rw [tile_succ, List.sum_append, ih]; push_cast; ring
+
+theorem tile_sum_rat (k : Nat) (x : List Rat) : (tile k x).sum = (k : Rat) * x.sum := by
+  induction k with
+  | zero => simp [tile]
+  | succ n ih => rw [tile_succ, List.sum_append, ih]; push_cast; ring
+
+theorem tile_map {α β} (f : α → β) (k : Nat) (x : List α) : (tile k x).map f = tile k (x.map f) := by
+  induction k with
+  | zero => simp [tile]
+  | succ n ih => rw [tile_succ, tile_succ, List.map_append, ih]
+
+theorem frameRows_cons {κ ν} (k : κ) (ks : List κ) (n : Nat) (label : Nat → String) (val : κ → Nat → ν) :
+    frameRows (k :: ks) n label val = (List.range n).map (fun j => (k, label j, val k j)) ++ frameRows ks n label val := by
+  simp [frameRows]
 
 end Lemmas.Evaluate
